@@ -26,7 +26,8 @@ def replay_e1(case):
     re = case.get("reenter")
     ex = forest.execute(kind, n, witness, op, pre, raise_at=tuple(case.get("raise_at") or ()),
                         persist=_tup(case["persistent"]) if case.get("persistent") else None,
-                        snap=(judge == "c16"), reenter={re[1]: _tup(re[2:])} if re else None)
+                        snap=(judge == "c16"), reenter={re[1]: _tup(re[2:])} if re else None,
+                        stack_budget=case.get("stack_budget"))
     t = core.Tally()
     extra = {"known": core.load_known_findings(pid)}
     jf = e1run.JUDGES.get(judge)
